@@ -27,8 +27,10 @@ package frameworkext
 //@   ensures #dims: ri.ResourceNames == old(ri.ResourceNames) && ri.Allocatable == old(ri.Allocatable) && ri.Reserved == old(ri.Reserved)
 //@   modifies ri.Allocated, ri.AllocatedPorts, contents(ri.AssignedPods), ri.Available, ri.AllocatedResource, ri.Non0AllocatedMilliCPU, ri.Non0AllocatedMem, allmaps(ri.AllocatedPorts), allmaps(ri.AllocatedPorts[""])
 
-// what is left of the reservation in dimension n: Allocatable - Allocated - Reserved, never negative
-//@ spec func remain(ri *ReservationInfo, n corev1.ResourceName) real = max0(val(ri.Allocatable, n) - val(ri.Allocated, n) - val(ri.Reserved, n))
+// what is left of the reservation in dimension n: Allocatable - Allocated - Reserved, never negative (a dimension that
+// neither Allocatable nor Allocated carries has nothing left, whatever Reserved says: SubtractWithNonNegativeResult stores 0
+// for a name only its second argument has)
+//@ spec func remain(ri *ReservationInfo, n corev1.ResourceName) real = (has(ri.Allocatable, n) || has(ri.Allocated, n)) ? max0(val(ri.Allocatable, n) - val(ri.Allocated, n) - val(ri.Reserved, n)) : 0
 
 // Non0AllocatedMilliCPU / Non0AllocatedMem are not specified here: the engine models &ri.Allocated as an interior pointer
 // that it cannot prove non-nil, so the callee contract of GetNonZeroRequestForResource (below) is not usable at this call.
@@ -53,7 +55,8 @@ package frameworkext
 //@   let uid = pod.ObjectMeta.UID
 //@   let rec = ri.AssignedPods[uid]
 //@   ensures #absent: !old(has(ri.AssignedPods, uid)) ==> ri.Allocated == old(ri.Allocated) && (forall u types.UID :: has(ri.AssignedPods, u) == old(has(ri.AssignedPods, u)) && ri.AssignedPods[u] == old(ri.AssignedPods[u]))
-//@   ensures #ledger: old(has(ri.AssignedPods, uid)) ==> (forall n corev1.ResourceName :: val(ri.Allocated, n) == max0(old(val(ri.Allocated, n)) - (inDims(ri, n) ? old(val(rec.Requests, n)) : 0)))
+// (a dimension the ledger does not carry stays at 0)
+//@   ensures #ledger: old(has(ri.AssignedPods, uid)) ==> (forall n corev1.ResourceName :: val(ri.Allocated, n) == (old(has(ri.Allocated, n)) ? max0(old(val(ri.Allocated, n)) - (inDims(ri, n) ? old(val(rec.Requests, n)) : 0)) : 0))
 //@   ensures #gone: !has(ri.AssignedPods, uid)
 //@   ensures #nonneg: nonneg(ri.Allocated)
 //@   ensures #others: forall u types.UID :: u != uid ==> has(ri.AssignedPods, u) == old(has(ri.AssignedPods, u)) && ri.AssignedPods[u] == old(ri.AssignedPods[u])
